@@ -137,8 +137,11 @@ class Impl:
         ents = []
         for data, rec, srv in s.application_traffic[old:]:
             ents.append(f"{'N' if data is None else (bytes(data).hex() or '-')}:{rec.metadata[0]}:{b01(srv)}")
+        hb = getattr(s, "handshake_13_buffer", {})          # absent before the TLS 1.3 fragmentation repair
+        hbc, hbs = bytes(hb.get(False, b"")).hex() or "-", bytes(hb.get(True, b"")).hex() or "-"
         return (f"cd={b01(s.can_decrypt)} ch={b01(s.client_hello_seen)} ver={ver} scc={b01(s.server_cipher_change)} "
-                f"ccc={b01(s.client_cipher_change)} dec={dec} cr={crs} n={len(s.application_traffic)} new=[{';'.join(ents)}]")
+                f"ccc={b01(s.client_cipher_change)} dec={dec} cr={crs} n={len(s.application_traffic)} new=[{';'.join(ents)}] "
+                f"hbc={hbc} hbs={hbs}")
 
 
 # ----------------------------------------------------------------------------- generators
@@ -224,6 +227,36 @@ def app_body(rng, v13):
     return lead + pad                                         # all zeros / empty after rstrip
 
 
+def hs_stream(rng):
+    """a TLS 1.3 inner handshake message stream: whole messages, now and then a Finished, a garbage length"""
+    msgs = b""
+    for _ in range(rng.choice([1, 2, 3, 4])):
+        t = rng.choice([20, 20, 8, 11, 15, 4, 13])
+        ln = rng.choice([0, 1, 2, 3, 5, 9, 17, 40])
+        if rng.random() < 0.06:                                  # a length field that lies (longer than what follows)
+            msgs += bytes([t]) + rng.choice([0xFFFFFF, 0x010000, ln + 300]).to_bytes(3, "big") + rb(rng, ln)
+        else:
+            msgs += bytes([t]) + ln.to_bytes(3, "big") + rb(rng, ln)
+    return msgs
+
+
+def fragmented(rng, srv):
+    """the stream cut at arbitrary byte positions into consecutive 0x16-inner records of one direction (a Finished
+    straddling two records, 1-3 byte tails, empty fragments)"""
+    stream = hs_stream(rng)
+    k = rng.choice([2, 2, 3, 4])
+    cuts = sorted(rng.randrange(0, len(stream) + 1) for _ in range(k - 1))
+    if rng.random() < 0.4 and len(stream) > 4:                   # a cut 1-3 bytes into a message header
+        cuts[0] = rng.randrange(1, 4)
+        cuts.sort()
+    frags = [stream[a:b] for a, b in zip([0] + cuts, cuts + [len(stream)])]
+    out = []
+    for f in frags:
+        pad = b"\x00" * rng.choice([0, 0, 1, 4])
+        out.append((srv, rec(0x17, b"\x03\x03", rng.choice([b"\x00", b"\x33"]) + f + b"\x16" + pad)))
+    return out
+
+
 def flow(rng):
     """a plausible connection followed by noise; → [(isserver, raw record)]"""
     version = rng.choice(["ssl30", "tls10", "tls11", "tls12", "tls13", "tls12", "tls13", "odd"])
@@ -240,8 +273,15 @@ def flow(rng):
             out.append((True, rec(0x14, b"\x03\x03", b"\x01")))
         for _ in range(rng.randrange(1, 4)):
             out.append((True, rec(0x17, b"\x03\x03", app_body(rng, True))))
+        if rng.random() < 0.6:                                  # the server's flight fragmented over records
+            fr = fragmented(rng, True)
+            if rng.random() < 0.3:                               # the other direction in between
+                fr.insert(rng.randrange(1, len(fr)), (False, rec(0x17, b"\x03\x03", app_body(rng, True))))
+            out += fr
         if rng.random() < 0.7:
             out.append((False, rec(0x14, b"\x03\x03", b"\x01")))
+        if rng.random() < 0.4:
+            out += fragmented(rng, False)
         out.append((False, rec(0x17, b"\x03\x03", app_body(rng, True))))
     else:
         for _ in range(rng.randrange(0, 3)):                 # Certificate, ServerHelloDone, ClientKeyExchange …
@@ -254,7 +294,9 @@ def flow(rng):
     for _ in range(rng.randrange(2, 9)):
         r = rng.random()
         srv = rng.random() < 0.5
-        if r < 0.7:
+        if v13 and r < 0.12:
+            out += fragmented(rng, srv)
+        elif r < 0.7:
             out.append((srv, rec(0x17, rv, app_body(rng, v13))))
         elif r < 0.8:
             out.append((srv, rec(0x15, rv, rng.choice([b"\x01\x00", b"\x02\x28", b"", b"\x01"]))))
